@@ -6,6 +6,7 @@ from contracts.common import implies, iff, forall_range, exists_range
 from exactly_lib.section_document.parse_source import ParseSource
 
 M = Module('C07')
+M.cover_default = True       # vacuity guard: every return / raise of a function under contract must be reachable
 
 P_PS = 'exactly_lib.section_document.parse_source'
 
@@ -801,7 +802,7 @@ def same_items(a, b):
 
 def is_concat(a, x, y):
     """a == x ++ y  (y may be a plain list of a few objects)"""
-    if isinstance(y, list):
+    if type(y) is list:
         return len(a) == len(x) + len(y) \
             and forall_range(0, len(x), lambda j: is_item(a[j], x[j])) \
             and all(is_item(a[len(x) + k], y[k]) for k in range(len(y)))
@@ -951,7 +952,12 @@ def _any_section_state(interp, impl):
     d = impl._section_name_2_element_list
     interp.setattr(impl, '_name_of_current_section', SChoice(idx, names + [None]))
     interp.setattr(impl, '_parser_for_current_section', SChoice(idx, [conf.section2parser[k] for k in names] + [None]))
-    outside = MList(interp, st.fresh_name('elements.outside'), ('obj',))
+    # (the list used outside any section is one object for the lifetime of the _Impl: a frame that keeps
+    # `the same list object` must be able to keep it)
+    outside = impl.__dict__.get('_pv_outside')
+    if outside is None:
+        outside = MList(interp, st.fresh_name('elements.outside'), ('obj',))
+        impl.__dict__['_pv_outside'] = outside
     interp.setattr(impl, '_elements_for_current_section', SChoice(idx, [d.values[k] for k in names] + [outside]))
 
 
@@ -1117,6 +1123,10 @@ def _switch_inv(self, orig, old):
     else:
         if not _same_section(self, old[2]):
             return False
+        if self._current_line is None:
+            return False
+        if self._current_line.text != old[5]:
+            return False
     return True
 
 
@@ -1132,7 +1142,8 @@ M.contract(P_SWITCH, event='switch-section',
            old=lambda self, orig: (lists_snapshot(self), off_of(self._document_source, orig),
                                    (self._name_of_current_section, self._parser_for_current_section,
                                     self._elements_for_current_section),
-                                   self._document_source._current_line_number, _rest_of_impl(self)),
+                                   self._document_source._current_line_number, _rest_of_impl(self),
+                                   self._current_line.text),
            # (frame: the parsing state; that the rest of the object is untouched is the clause `rest-of-the-...`)
            modifies={'self': IMPL_STATE},
            raises={FileSourceError: {'shape': FILE_SOURCE_ERROR, 'ensures': (lambda self, orig, old, exc:
@@ -1147,6 +1158,8 @@ M.contract(P_SWITCH, event='switch-section',
                'stops-at-end-or-at-a-line-that-is-not-a-header': lambda self:
                self._current_line is None or not is_header(self._current_line.text),
                'rest-of-the-object-untouched': lambda self, old: _rest_of_impl(self) == old[4],
+               'when-the-current-line-is-a-header-it-is-consumed (so a section is entered)': lambda self, old:
+               (not is_header(old[5])) or (consumed_some_line(self._document_source, old[3]) and in_section(self)),
            }, raises_only=())
 M.loop(P_SWITCH, 0, invariant=lambda self, orig, old: _switch_inv(self, orig, old),
        modifies=dict(IMPL_FRAME, section_line='local', section_name='local', msg='local'))
